@@ -63,6 +63,63 @@ T('C13', 'twin-salt-temp', PK, "        self.s2k.salt = bytearray(os.urandom(8))
 T('C13', 'twin-genkey-temp', CO, "    def gen_key(self):\n        return os.urandom(self.key_size // 8)", "    def gen_key(self):\n        nbytes = self.key_size // 8\n        return os.urandom(nbytes)")
 T('C13', 'twin-sessionkey-not-none', PGP, "        if sessionkey is None:\n            sessionkey = cipher_algo.gen_key()\n        skesk.encrypt_sk(passphrase, sessionkey)", "        if sessionkey is not None:\n            pass\n        else:\n            sessionkey = cipher_algo.gen_key()\n        skesk.encrypt_sk(passphrase, sessionkey)")
 
+# ---- C13 hardening: refactorings that must stay silent, and new mutants for the rewritten rules
+T('C13', 'twin-gen-iv-shift', CO, "    def gen_iv(self):\n        return os.urandom(self.block_size // 8)", "    def gen_iv(self):\n        noctets = self.block_size >> 3\n        return os.urandom(int(noctets))")
+M('C13', 'gen-iv-half-block', CO, "    def gen_iv(self):\n        return os.urandom(self.block_size // 8)", "    def gen_iv(self):\n        return os.urandom(self.block_size >> 4)", 'C13.1')
+KEY_ENC = ("        pkesk = PKESessionKeyV3()\n        pkesk.encrypter = bytearray(binascii.unhexlify(self.fingerprint.keyid.encode('latin-1')))\n        pkesk.pkalg = self.key_algorithm\n"
+           "        pkesk.encrypt_sk(self._key, cipher_algo, sessionkey)\n\n        if message.is_encrypted:  # pragma: no cover\n            _m = message\n\n        else:\n            _m = PGPMessage()\n"
+           "            skedata = IntegrityProtectedSKEDataV1()\n            skedata.encrypt(sessionkey, cipher_algo, message.__bytes__())\n            _m |= skedata\n\n        _m |= pkesk\n\n        return _m\n")
+T('C13', 'twin-key-encrypt-renamed-locals', PGP, KEY_ENC,
+  "        esk = PKESessionKeyV3()\n        esk.encrypter = bytearray(binascii.unhexlify(self.fingerprint.keyid.encode('latin-1')))\n        esk.pkalg = self.key_algorithm\n"
+  "        esk.encrypt_sk(self._key, symalg=cipher_algo, symkey=sessionkey)\n\n        if message.is_encrypted:  # pragma: no cover\n            out = message\n\n        else:\n            out = PGPMessage()\n"
+  "            container = IntegrityProtectedSKEDataV1()\n            serialised = message.__bytes__()\n            container.encrypt(sessionkey, cipher_algo, serialised)\n            out |= container\n\n        out |= esk\n\n        return out\n")
+M('C13', 'container-key-redrawn-when-generated', PGP, "        if sessionkey is None:\n            sessionkey = cipher_algo.gen_key()\n\n        # set up a new PKESessionKeyV3",
+  "        generated = sessionkey is None\n        if generated:\n            sessionkey = cipher_algo.gen_key()\n\n        # set up a new PKESessionKeyV3", 'C13.2',
+  more=[(PGP, "            skedata.encrypt(sessionkey, cipher_algo, message.__bytes__())", "            skedata.encrypt(cipher_algo.gen_key() if generated else sessionkey, cipher_algo, message.__bytes__())")])
+KB = ("        self.s2k.iv = enc_alg.gen_iv()\n        self.s2k.halg = hash_alg\n        self.s2k.salt = bytearray(os.urandom(8))\n        self.s2k.count = hash_alg.tuned_count\n")
+T('C13', 'twin-keyblob-temporaries', FL, "    def encrypt_keyblob(self, passphrase, enc_alg, hash_alg):", "    def encrypt_keyblob(self, passphrase, cipher, digest):",
+  more=[(FL, "        self.s2k.encalg = enc_alg\n", "        self.s2k.encalg = cipher\n"),
+        (FL, KB, "        fresh_iv = cipher.gen_iv()\n        self.s2k.iv = fresh_iv\n        self.s2k.halg = digest\n        fresh_salt = os.urandom(8)\n        self.s2k.salt = bytearray(fresh_salt)\n        self.s2k.count = digest.tuned_count\n"),
+        (FL, "        self.encbytes = bytearray(_encrypt(bytes(pt), bytes(sessionkey), enc_alg, bytes(self.s2k.iv)))", "        self.encbytes = bytearray(_encrypt(bytes(pt), bytes(sessionkey), cipher, iv=bytes(fresh_iv)))")])
+M('C13', 'keyblob-encrypts-under-second-iv', FL, "        self.encbytes = bytearray(_encrypt(bytes(pt), bytes(sessionkey), enc_alg, bytes(self.s2k.iv)))",
+  "        self.encbytes = bytearray(_encrypt(bytes(pt), bytes(sessionkey), enc_alg, bytes(enc_alg.gen_iv())))", 'C13.2')
+M('C13', 'keyblob-salt-after-derive', FL, "        self.s2k.salt = bytearray(os.urandom(8))\n        self.s2k.count = hash_alg.tuned_count\n", "        self.s2k.count = hash_alg.tuned_count\n", 'C13.2',
+  more=[(FL, "        sessionkey = self.s2k.derive_key(passphrase)\n        del passphrase\n\n        pt = bytearray()", "        sessionkey = self.s2k.derive_key(passphrase)\n        self.s2k.salt = bytearray(os.urandom(8))\n        del passphrase\n\n        pt = bytearray()")])
+T('C13', 'twin-skesk-salt-helper', PK, "        self.s2k.salt = bytearray(os.urandom(8))\n        esk = self.s2k.derive_key(passphrase)", "        self.s2k.salt = self._fresh_salt()\n        esk = self.s2k.derive_key(passphrase)",
+  more=[(PK, "    def encrypt_sk(self, passphrase, sk):\n        # generate the salt", "    @staticmethod\n    def _fresh_salt():\n        return bytearray(os.urandom(_SALT_OCTETS))\n\n    def encrypt_sk(self, passphrase, sk):\n        # generate the salt"),
+        (PK, "class SKESessionKeyV4(SKESessionKey):\n", "_SALT_OCTETS = 8\n\n\nclass SKESessionKeyV4(SKESessionKey):\n")])
+M('C13', 'skesk-salt-four-octets-doubled', PK, "        self.s2k.salt = bytearray(os.urandom(8))\n        esk = self.s2k.derive_key(passphrase)", "        self.s2k.salt = bytearray(os.urandom(4) * 2)\n        esk = self.s2k.derive_key(passphrase)", 'C13.2')
+T('C13', 'twin-seipd-params-renamed', PK, "    def encrypt(self, key, alg, data):\n        iv = alg.gen_iv()\n        data = iv + iv[-2:] + data\n",
+  "    def encrypt(self, sessionkey, cipher, data):\n        key, alg = sessionkey, cipher\n        rnd = alg.gen_iv()\n        data = b''.join([rnd, rnd[-2:], data])\n")
+ECDH_W = ("            v = ec.generate_private_key(km.oid.curve(), default_backend())\n            x = MPI(v.public_key().public_numbers().x)\n            y = MPI(v.public_key().public_numbers().y)\n"
+          "            ct.p = ECPoint.from_values(km.oid.key_size, ECPointFormat.Standard, x, y)\n            s = v.exchange(ec.ECDH(), km.__pubkey__())\n")
+T('C13', 'twin-ecdh-renamed-hoisted', FL, ECDH_W,
+  "            eph = ec.generate_private_key(km.oid.curve(), default_backend())\n            numbers = eph.public_key().public_numbers()\n            px, py = MPI(numbers.x), MPI(numbers.y)\n"
+  "            ct.p = ECPoint.from_values(km.oid.key_size, ECPointFormat.Standard, px, py)\n            recipient = km.__pubkey__()\n            s = eph.exchange(ec.ECDH(), recipient)\n")
+M('C13', 'ecdh-point-of-another-key', FL, ECDH_W,
+  "            v = ec.generate_private_key(km.oid.curve(), default_backend())\n            w = ec.generate_private_key(km.oid.curve(), default_backend())\n            x = MPI(w.public_key().public_numbers().x)\n            y = MPI(w.public_key().public_numbers().y)\n"
+  "            ct.p = ECPoint.from_values(km.oid.key_size, ECPointFormat.Standard, x, y)\n            s = v.exchange(ec.ECDH(), km.__pubkey__())\n", 'C13.2')
+M('C13', 'ecdh-exchange-with-own-point', FL, "            s = v.exchange(ec.ECDH(), km.__pubkey__())\n", "            s = v.exchange(ec.ECDH(), v.public_key())\n", 'C13.2')
+M('C13', 'ecdh-fixed-curve', FL, "            v = ec.generate_private_key(km.oid.curve(), default_backend())\n", "            v = ec.generate_private_key(ec.SECP256R1(), default_backend())\n", 'C13.2')
+M('C13', 'session-key-copy-kept', PGP, "        skesk.encrypt_sk(passphrase, sessionkey)\n        del passphrase", "        skesk.encrypt_sk(passphrase, sessionkey)\n        skesk._plain = bytes(sessionkey)\n        del passphrase", 'C13.3')
+M('C13', 'pkesk-keeps-m-value', PK, "        self.ct = self.ct.encrypt(encrypter, *encargs)\n        self.update_hlen()", "        self.ct = self.ct.encrypt(encrypter, *encargs)\n        self._m = bytes(m)\n        self.update_hlen()", 'C13.3')
+M('C13', 'seipd-returns-key', PK, "        self.ct = _encrypt(data, key, alg)\n        self.update_hlen()\n", "        self.ct = _encrypt(data, key, alg)\n        self.update_hlen()\n        return bytearray(key)\n", 'C13.3')
+T('C13', 'twin-pkesk-key-copied-for-sum', PK, "        m += self.int_to_bytes(sum(bytearray(symkey)) % 65536, 2)", "        octets = bytearray(symkey)\n        total = sum(octets)\n        m += self.int_to_bytes(total % 65536, 2)")
+
+KEYSIZE_TABLE = '        ks = {SymmetricKeyAlgorithm.IDEA: 128,\n              SymmetricKeyAlgorithm.TripleDES: 192,\n              SymmetricKeyAlgorithm.CAST5: 128,\n              SymmetricKeyAlgorithm.Blowfish: 128,\n              SymmetricKeyAlgorithm.AES128: 128,\n              SymmetricKeyAlgorithm.AES192: 192,\n              SymmetricKeyAlgorithm.AES256: 256,\n              SymmetricKeyAlgorithm.Twofish256: 256,\n              SymmetricKeyAlgorithm.Camellia128: 128,\n              SymmetricKeyAlgorithm.Camellia192: 192,\n              SymmetricKeyAlgorithm.Camellia256: 256}\n\n        if self in ks:\n            return ks[self]\n\n        raise NotImplementedError(repr(self))\n'
+T('C13', 'twin-keysize-if-chain', CO, KEYSIZE_TABLE,
+  "        if self in (SymmetricKeyAlgorithm.IDEA, SymmetricKeyAlgorithm.CAST5, SymmetricKeyAlgorithm.Blowfish, SymmetricKeyAlgorithm.AES128, SymmetricKeyAlgorithm.Camellia128):\n            return 128\n\n"
+  "        if self in (SymmetricKeyAlgorithm.TripleDES, SymmetricKeyAlgorithm.AES192, SymmetricKeyAlgorithm.Camellia192):\n            return 192\n\n"
+  "        if self in {SymmetricKeyAlgorithm.AES256, SymmetricKeyAlgorithm.Twofish256, SymmetricKeyAlgorithm.Camellia256}:\n            return 256\n\n        raise NotImplementedError(repr(self))\n")
+M('C13', 'keysize-if-chain-aes192-in-128-arm', CO, KEYSIZE_TABLE,
+  "        if self in (SymmetricKeyAlgorithm.IDEA, SymmetricKeyAlgorithm.CAST5, SymmetricKeyAlgorithm.Blowfish, SymmetricKeyAlgorithm.AES128, SymmetricKeyAlgorithm.AES192, SymmetricKeyAlgorithm.Camellia128):\n            return 128\n\n"
+  "        if self in (SymmetricKeyAlgorithm.TripleDES, SymmetricKeyAlgorithm.Camellia192):\n            return 192\n\n"
+  "        if self in {SymmetricKeyAlgorithm.AES256, SymmetricKeyAlgorithm.Twofish256, SymmetricKeyAlgorithm.Camellia256}:\n            return 256\n\n        raise NotImplementedError(repr(self))\n", 'C13.1')
+T('C13', 'twin-keysize-get', CO, "        if self in ks:\n            return ks[self]\n\n        raise NotImplementedError(repr(self))\n\n    def gen_iv(self):",
+  "        size = ks.get(self)\n        if size is None:\n            raise NotImplementedError(repr(self))\n        return size\n\n    def gen_iv(self):")
+M('C13', 'keysize-tripledes-168', CO, "              SymmetricKeyAlgorithm.TripleDES: 192,\n              SymmetricKeyAlgorithm.CAST5: 128,", "              SymmetricKeyAlgorithm.TripleDES: 168,\n              SymmetricKeyAlgorithm.CAST5: 128,", 'C13.1')
+M('C03', 'cipher-aes256-bound-to-camellia', CO, "              SymmetricKeyAlgorithm.AES256: algorithms.AES,", "              SymmetricKeyAlgorithm.AES256: algorithms.Camellia,", 'C03.4')
+
 # =============================================================================================== C04
 MDC_G = "        if not constant_time.bytes_eq(bytes(pt[-22:]), _expected_mdcbytes):\n            raise PGPDecryptionError(\"Decryption failed\")  # pragma: no cover\n"
 M('C04', 'mdc-guard-deleted', PK, MDC_G, "", 'C04.1')
